@@ -172,6 +172,10 @@ def _plan(tier, verif_seed):
                 for hmode in ("r", "rb"):
                     if (enc, hmode) != ("utf-8", "r"):
                         plan.append((e, fam, 1 + (verif_seed - 1) * 100, 0, enc, hmode))
+        # an environment fault: the hardened parser package cannot be imported (a broken or partial installation). Whatever the
+        # library then does, it must not parse entity-declaring documents with something else
+        for fam in (("internal_nested", 3, "elem"), ("internal_nested", 9, "attr"), ("external_general", 0, "elem"), ("declared_unused", 1, "none")):
+            plan.append((e, fam, 0, 0, "utf-8", "r:no_defusedxml"))
     return plan
 
 
@@ -212,10 +216,28 @@ def _parse(entry, world, path, hmode="r"):
 _clean = {}
 
 
+def _without_defusedxml(case: dict) -> RunResult:
+    """Runs in a forked child: the library and the hardened parser are unloaded and the parser's package made unimportable."""
+    import sys
+
+    for m in list(sys.modules):
+        if m == "defusedxml" or m.startswith(("defusedxml.", "dissect.hypervisor")):
+            del sys.modules[m]
+    sys.modules["defusedxml"] = None  # `import defusedxml` now raises ImportError
+    return run_case(dict(case, hmode="r", _env_applied=True))
+
+
 def run_case(case: dict) -> RunResult:
     from hvsim.engines import monitor
 
     monitor.warm()
+    if case.get("hmode", "r").endswith(":no_defusedxml") and not case.get("_env_applied"):
+        from hvsim.orchestrator import forked
+
+        res = forked(_without_defusedxml, case, timeout=120.0)
+        res.probes["xml.env_defusedxml_not_importable"] = 1
+        res.faults["env_missing_dependency"] += 1
+        return res
     world = World("x")
     log = world.log
     prop = case["prop"]
@@ -248,7 +270,7 @@ def run_case(case: dict) -> RunResult:
         honey.write(0, b"TOP-SECRET-HONEYPOT\n")
         world.fs.add(world.root + "/secret.txt", honey)
         ck = (entry, flavour)
-        if ck not in _clean:
+        if ck not in _clean and not declares:
             cw = World("clean")
             with cw.fs:
                 cd = cw.root + ("/vm/x.hdd" if entry == "hdd" else "/vm")
@@ -278,6 +300,10 @@ def run_case(case: dict) -> RunResult:
             tracemalloc.stop()
         log.add("reader", "parse", [entry, list(fam)], outcome)
         opens = [o for o in MONITOR.opens]
+        if case.get("_env_applied"):
+            # the library is imported afresh inside the measured window: the interpreter reading source and byte-code files is
+            # not the parser's doing
+            opens = [o for o in opens if not str(o[0]).endswith((".py", ".pyc", ".so", "__pycache__"))]
         net = list(MONITOR.net)
         honey_reads = [p for p, mode in world.fs.open_log if p.endswith("/secret.txt")]
         if outcome == "budget":
